@@ -72,6 +72,7 @@ type pubRec struct {
 // evRec is one adjudicator event pushed into a subscription.
 type evRec struct {
 	k     int
+	ep    *epoch // watching session whose subscription received it
 	kind  int
 	ver   uint64
 	obj   channel.AdjudicatorEvent
@@ -96,6 +97,34 @@ type opRec struct {
 	inv, ret int64
 	err      error
 	panicked string
+	archived bool // StopWatching(S): S was locked in P's newest transaction at the invocation
+}
+
+// epoch is one watching session of a channel: from a StartWatching call to
+// the StopWatching that succeeds. A sub-channel can have several (re-watching
+// after de-registration); every session has its own chain subscription, its
+// own StatesPub and its own client event stream.
+type epoch struct {
+	n            int
+	start        *opRec
+	stops        []*opRec // StopWatching calls invoked during the session
+	relays       []relayRec
+	streamClosed int64
+}
+
+// okStop returns the successful StopWatching that ended the session, if any.
+func (ep *epoch) okStop() *opRec {
+	for _, r := range ep.stops {
+		if r.ret > 0 && r.err == nil && r.panicked == "" {
+			return r
+		}
+	}
+	return nil
+}
+
+// startedOK reports whether the session's StartWatching returned nil.
+func (ep *epoch) startedOK() bool {
+	return ep.start.ret > 0 && ep.start.err == nil && ep.start.panicked == ""
 }
 
 type relayRec struct {
@@ -117,11 +146,25 @@ type chState struct {
 	locked        []int // P: sub-channels locked in the newest transaction handed to Publish
 	archived      bool  // S: was locked in P's newest transaction when its StopWatching was invoked
 	// history
-	pubs         []*pubRec
-	starts       []*opRec
-	stops        []*opRec
-	relays       []relayRec
-	streamClosed int64
+	pubs []*pubRec
+	eps  []*epoch
+}
+
+// cur is the latest watching session (nil before the first StartWatching).
+func (c *chState) cur() *epoch {
+	if len(c.eps) == 0 {
+		return nil
+	}
+	return c.eps[len(c.eps)-1]
+}
+
+// allStops lists the StopWatching calls of all sessions in order.
+func (c *chState) allStops() []*opRec {
+	var l []*opRec
+	for _, ep := range c.eps {
+		l = append(l, ep.stops...)
+	}
+	return l
 }
 
 type harness struct {
@@ -284,7 +327,7 @@ func (h *harness) inject(k, kind int, ver uint64, obj channel.AdjudicatorEvent, 
 		h.s.Count("probe.event_after_stop", 1)
 		return false
 	}
-	r := &evRec{k: k, kind: kind, ver: ver, obj: obj, self: self}
+	r := &evRec{k: k, kind: kind, ver: ver, obj: obj, self: self, ep: sub.ep}
 	h.mu.Lock()
 	if h.frozen {
 		h.mu.Unlock()
@@ -366,10 +409,15 @@ func (h *harness) do(i int, st *kernel.Step) {
 func (h *harness) doStart(i int, st *kernel.Step, k int) {
 	h.mu.Lock()
 	c, p := h.ch[k], h.ch[0]
+	restart := c.started
 	why := ""
 	switch {
-	case c.started:
-		why = "channel was already started once (re-watching is outside the property)"
+	case c.startInFlight:
+		why = "a StartWatching of the channel is in flight"
+	case restart && k == 0:
+		why = "re-watching the ledger channel is not part of the workload"
+	case restart && (c.watched || !c.stopped || c.stopInFlight > 0):
+		why = "channel is watched (re-watching needs a successful StopWatching first)"
 	case k > 0 && (!p.watched || p.stopInFlight > 0):
 		why = "parent is not watched"
 	}
@@ -378,17 +426,32 @@ func (h *harness) doStart(i int, st *kernel.Step, k int) {
 		h.skip(i, st, why)
 		return
 	}
-	v0 := uint64(st.Int("v"))
-	if v0 > 1000 {
-		v0 = 0
+	// first start: the step's version; re-start: the sub-channel's next version
+	v0 := c.next
+	if !restart {
+		v0 = uint64(st.Int("v"))
+		if v0 > 1000 {
+			v0 = 0
+		}
 	}
 	c.started, c.startInFlight = true, true
-	rec := &opRec{inv: h.tick(chName(k), "start", fmt.Sprintf("v%d", v0))}
-	c.starts = append(c.starts, rec)
+	what := "start"
+	if restart {
+		what = "restart"
+	}
+	rec := &opRec{inv: h.tick(chName(k), what, fmt.Sprintf("v%d", v0))}
+	ep := &epoch{n: len(c.eps), start: rec}
+	c.eps = append(c.eps, ep)
 	tx := mkTx(k, v0, nil)
-	c.pubs = append(c.pubs, &pubRec{ver: v0, tx: tx, enc: gen.EncodeState(tx.State), inv: rec.inv, ret: rec.inv})
+	// the watcher may know the state from the invocation on and must know it
+	// once StartWatching has returned (ret is set below)
+	initPub := &pubRec{ver: v0, tx: tx, enc: gen.EncodeState(tx.State), inv: rec.inv}
+	c.pubs = append(c.pubs, initPub)
 	c.next = v0 + 1
 	h.mu.Unlock()
+	if restart {
+		h.s.Count("probe.rewatch", 1)
+	}
 	h.s.Count("op.start", 1)
 
 	var pub watcher.StatesPub
@@ -406,10 +469,11 @@ func (h *harness) doStart(i int, st *kernel.Step, k int) {
 	h.mu.Lock()
 	rec.ret = h.tick(chName(k), "start.ret", errText(err))
 	rec.err = err
+	initPub.ret = rec.ret
 	c.startInFlight = false
 	okStart := err == nil && rec.panicked == "" && pub != nil && sub != nil
 	if okStart {
-		c.watched = true
+		c.watched, c.stopped = true, false
 		c.pub = pub
 	}
 	h.snapshot()
@@ -420,24 +484,25 @@ func (h *harness) doStart(i int, st *kernel.Step, k int) {
 		h.s.Fail("C05.start-failed", "StartWatching(%s) failed: %v", chName(k), err)
 	}
 	if okStart {
-		go h.reader(k, sub)
+		go h.reader(k, ep, sub)
 	}
 }
 
-// reader drains the client's event stream of channel k (the pub-sub buffer
-// holds 10 events; a full buffer would block the watcher's handler).
-func (h *harness) reader(k int, sub watcher.AdjudicatorSub) {
+// reader drains the client's event stream of one watching session of channel
+// k (the pub-sub buffer holds 10 events; a full buffer would block the
+// watcher's handler).
+func (h *harness) reader(k int, ep *epoch, sub watcher.AdjudicatorSub) {
 	for e := range sub.EventStream() {
 		h.mu.Lock()
 		if !h.frozen {
-			h.ch[k].relays = append(h.ch[k].relays, relayRec{obj: e, t: h.tick(chName(k), "relay", fmt.Sprintf("%T v%d", e, e.Version()))})
+			ep.relays = append(ep.relays, relayRec{obj: e, t: h.tick(chName(k), "relay", fmt.Sprintf("%T v%d", e, e.Version()))})
 			h.snapshot()
 		}
 		h.mu.Unlock()
 	}
 	h.mu.Lock()
 	if !h.frozen {
-		h.ch[k].streamClosed = h.tick(chName(k), "stream-closed", "")
+		ep.streamClosed = h.tick(chName(k), "stream-closed", "")
 	}
 	h.mu.Unlock()
 }
@@ -476,9 +541,11 @@ func (h *harness) doPub(i int, st *kernel.Step, k int) {
 				want = contains(c.locked, j)
 			case sj.watched:
 			case sj.stopped && sj.archived:
+				// de-registered while locked (also while a re-start is in flight:
+				// stopped is cleared only when that StartWatching has returned)
 			default:
-				// never watched, start in flight, or de-registered while not locked:
-				// the statement says nothing about such a sub-channel being locked
+				// never watched, first start in flight, or de-registered while not
+				// locked: the statement says nothing about such a sub-channel being locked
 				want = false
 			}
 			if want {
@@ -575,8 +642,9 @@ func (h *harness) doStop(i int, st *kernel.Step, k int) {
 	if k > 0 {
 		c.archived = contains(h.ch[0].locked, k)
 	}
-	rec := &opRec{inv: h.tick(chName(k), "stop", "")}
-	c.stops = append(c.stops, rec)
+	rec := &opRec{inv: h.tick(chName(k), "stop", ""), archived: c.archived}
+	ep := c.cur()
+	ep.stops = append(ep.stops, rec)
 	c.stopInFlight++
 	h.mu.Unlock()
 	h.s.Count("op.stop", 1)
@@ -639,13 +707,15 @@ func (h *harness) snapshot() {
 				}
 			}
 		}
-		for _, r := range c.relays {
-			if _, ok := r.obj.(*channel.RegisteredEvent); ok {
-				relReg = int64(r.obj.Version())
+		if ep := c.cur(); ep != nil {
+			for _, r := range ep.relays {
+				if _, ok := r.obj.(*channel.RegisteredEvent); ok {
+					relReg = int64(r.obj.Version())
+				}
 			}
 		}
 		refused := 0
-		for _, sr := range c.stops {
+		for _, sr := range c.allStops() {
 			if sr.ret > 0 && sr.err != nil {
 				refused = 1
 			}
@@ -661,7 +731,7 @@ func (h *harness) snapshot() {
 		// versions enter relative to the newest one, so that the state space is
 		// about the watcher's bookkeeping and not about how long the history is
 		newest := int64(c.next) - 1
-		x = kernel.Derive(x, k, status, int(clamp(newest, 0, 3)), int(clamp(newest-maxReg, -1, 3)), int(clamp(newest-relReg, -1, 3)), refused, lock, arch)
+		x = kernel.Derive(x, k, status, int(clamp(newest, 0, 3)), int(clamp(newest-maxReg, -1, 3)), int(clamp(newest-relReg, -1, 3)), refused, lock, arch, int(clamp(int64(len(c.eps)), 0, 3)))
 	}
 	h.states = append(h.states, x)
 }
@@ -741,7 +811,7 @@ func runScenario(t *testing.T, sc *kernel.Scenario, trace bool) *kernel.Result {
 			st := &sc.Steps[i]
 			gap := time.Duration(st.Int("gap_us"))*time.Microsecond + s.Delay(h.key(fmt.Sprintf("driver:gap:%d", i)), 0, time.Microsecond)
 			time.Sleep(gap)
-			if st.Int("async") == 1 && !isStart(st.Op) {
+			if st.Int("async") == 1 && (!isStart(st.Op) || h.isRestart(st)) {
 				d := s.Delay(h.key(fmt.Sprintf("driver:async:%d", i)), 0, asyncMax)
 				h.wg.Add(1)
 				go func() {
@@ -834,4 +904,29 @@ func (h *harness) cleanup() {
 		}
 	}
 	time.Sleep(10 * time.Millisecond)
+}
+
+// curEpoch returns the watching session that is being started / running for
+// channel k. Called from Subscribe (under the watcher's registry mutex): takes
+// the harness lock only briefly.
+func (h *harness) curEpoch(k int) *epoch {
+	h.mu.Lock()
+	defer h.mu.Unlock()
+	return h.ch[k].cur()
+}
+
+// isRestart reports whether a startS step would re-watch a sub-channel that
+// was watched before. First starts are always issued synchronously (the
+// following steps need the channel); re-starts may race like any other action.
+func (h *harness) isRestart(st *kernel.Step) bool {
+	if st.Op != "startS" {
+		return false
+	}
+	k := int(st.Int("i"))
+	if k < 1 || k > maxSubs {
+		return false
+	}
+	h.mu.Lock()
+	defer h.mu.Unlock()
+	return h.ch[k].started
 }
